@@ -616,7 +616,14 @@ pub(super) fn translate_cid(cid: rq::CId, ctx: &mut Context) -> Result<ExprOrSou
             ColumnDecl::RelationColumn(riid, _, col) => {
                 let column = match col.clone() {
                     rq::RelationColumn::Wildcard => translate_star(ctx, None)?,
-                    rq::RelationColumn::Single(name) => name.unwrap(),
+                    // a column of a sub-query that its select left without a name (`select {a + 1}`
+                    // in the relational argument of a join) cannot be referred to from outside
+                    rq::RelationColumn::Single(name) => name.ok_or_else(|| {
+                        Error::new_simple(
+                            "This table contains unnamed columns that need to be referenced by name",
+                        )
+                        .push_hint("give the column a name in the sub-pipeline: `select {x = ...}`")
+                    })?,
                 };
                 let t = &ctx.anchor.relation_instances[riid];
 
